@@ -20,6 +20,11 @@ type gnode struct {
 	user   int      // -1: none
 	req    []int
 	inh    []int
+	// checked on the attribute itself
+	view     string
+	rtviews  []string // view names when the attribute's type is a result type
+	isRT     bool
+	badrange bool
 }
 
 type proj struct {
@@ -131,7 +136,40 @@ func (p *proj) fillType(i int, ut *dg.UserType) {
 	}
 }
 
+func badRange(v *dg.Validation) bool {
+	if v == nil {
+		return false
+	}
+	switch {
+	case v.Min != nil && v.Max != nil && *v.Min > *v.Max,
+		v.Min != nil && v.ExclMax != nil && *v.Min >= *v.ExclMax,
+		v.ExclMin != nil && v.Max != nil && *v.ExclMin >= *v.Max,
+		v.ExclMin != nil && v.ExclMax != nil && *v.ExclMin > *v.ExclMax,
+		v.MinLen != nil && v.MaxLen != nil && *v.MinLen > *v.MaxLen:
+		return true
+	}
+	return false
+}
+
 func (p *proj) attrNode(a *dg.Attr) int {
+	id := p.attrNode1(a)
+	if a != nil {
+		n := p.nodes[id]
+		n.view = a.View
+		n.badrange = badRange(a.V)
+		if a.T.Kind == "user" || a.T.Kind == "collection" {
+			if ut := p.ut(a.T.Ref); ut != nil && ut.Result {
+				n.isRT = true
+				for _, v := range ut.Views {
+					n.rtviews = append(n.rtviews, v.Name)
+				}
+			}
+		}
+	}
+	return id
+}
+
+func (p *proj) attrNode1(a *dg.Attr) int {
 	if a == nil {
 		return p.newNode(&gnode{kind: "prim", user: -1})
 	}
@@ -258,6 +296,29 @@ func (p *proj) coqGraph() string {
 	}
 	b.WriteString("]")
 	return b.String()
+}
+
+func (p *proj) coqAttrs() string {
+	ss := make([]string, len(p.nodes))
+	for i, n := range p.nodes {
+		v := "None"
+		if n.view != "" {
+			v = fmt.Sprintf("(Some %d)", p.intern(n.view))
+		}
+		rt := "None"
+		if n.isRT {
+			rt = "(Some " + p.names1(n.rtviews) + ")"
+		}
+		ss[i] = fmt.Sprintf("mkA %s %s %s", v, rt, vhBool(n.badrange))
+	}
+	return "[" + strings.Join(ss, ";") + "]"
+}
+
+func vhBool(b bool) string {
+	if b {
+		return "true"
+	}
+	return "false"
 }
 
 // visible lists the attribute names AttributeExpr.Find can reach in a user type: its
@@ -496,9 +557,13 @@ func (p *proj) coqDesign() (term string, roots []int) {
 	for _, s := range d.Services {
 		var ms []string
 		for _, m := range s.Methods {
-			for _, a := range []*dg.Attr{m.Payload, m.StreamingPayload, m.Result, m.StreamingResult} {
+			for k, a := range []*dg.Attr{m.Payload, m.StreamingPayload, m.Result, m.StreamingResult} {
 				if a != nil && !(a.T.Kind == "object" && len(a.T.Attrs) == 0) {
-					roots = append(roots, p.attrNode(a))
+					id := p.attrNode(a)
+					if k == 2 && m.ResultView != "" {
+						p.nodes[id].view = m.ResultView // Result(T, func() { View(v) })
+					}
+					roots = append(roots, id)
 				}
 			}
 			h := "None"
@@ -520,8 +585,8 @@ func (p *proj) coqDesign() (term string, roots []int) {
 			rts = append(rts, fmt.Sprintf("mkRT %s %s", p.names1(attrs), p.views(ut.Views)))
 		}
 	}
-	term = fmt.Sprintf("(mkD %s %s %s [%s] [%s] [%s] %s %s)", p.errdefs(d.Errors), p.reqs(d.Security, false), p.eresponses(d.HTTPErrs),
-		strings.Join(schemes, ";"), strings.Join(rts, ";"), strings.Join(svcs, ";"), p.coqGraph(), nat(roots))
+	term = fmt.Sprintf("(mkD %s %s %s [%s] [%s] [%s] %s %s %s)", p.errdefs(d.Errors), p.reqs(d.Security, false), p.eresponses(d.HTTPErrs),
+		strings.Join(schemes, ";"), strings.Join(rts, ";"), strings.Join(svcs, ";"), p.coqGraph(), nat(roots), p.coqAttrs())
 	return term, roots
 }
 
@@ -553,6 +618,8 @@ var errPats = []errPat{
 	{regexp.MustCompile(`security scope "([^"]+)" not found in any of the security schemes`), "EScope"},
 	{regexp.MustCompile(`does not define view "([^"]+)"`), "EView"},
 	{regexp.MustCompile(`unknown attribute "([^"]+)"`), "EViewAttr"},
+	{regexp.MustCompile(`uses view "([^"]+)" but`), "EViewNotRT"},
+	{regexp.MustCompile(`(minimum is greater than|min length is greater than|is greater than or equal to exclusive|exclusive minimum is greater than)`), "EBadRange"},
 	{regexp.MustCompile(`required field "([^"]+)" does not exist in type`), "ERequired"},
 	{regexp.MustCompile(`does not define a (username) attribute`), "ENoUsername"},
 	{regexp.MustCompile(`does not define a (password) attribute`), "ENoPassword"},
@@ -566,7 +633,7 @@ var errPats = []errPat{
 	{regexp.MustCompile(`defines a (OAuth2 access token) attribute, but no`), "EStrayAccessToken"},
 }
 
-var nameless = map[string]bool{"ENoPayload": true, "ERespNoResult": true,
+var nameless = map[string]bool{"ENoPayload": true, "ERespNoResult": true, "EBadRange": true,
 	"ENoUsername": true, "ENoPassword": true, "ENoAPIKey": true, "ENoToken": true, "ENoAccessToken": true,
 	"EStrayUsername": true, "EStrayPassword": true, "EStrayAPIKey": true, "EStrayToken": true, "EStrayAccessToken": true}
 
